@@ -1000,6 +1000,30 @@ func genMsgParse(c *Ctx) {
 		c.decCase("parse", "", fr, 24)
 	}
 
+	// packet-in carrying IPv6 with EVERY next-header value, directly and after a hop-by-hop header, with and without
+	// bytes after the last header
+	for nh := 0; nh < 256; nh++ {
+		for variant := 0; variant < 4; variant++ {
+			if !c.thorough() && variant >= 2 && nh%16 != 11 {
+				continue
+			}
+			var after []byte
+			if variant%2 == 1 {
+				after = unhex("8000123401020304")
+			}
+			first := nh
+			var chain []byte
+			if variant >= 2 {
+				first = 0
+				chain = nb().u8(nh, 0).hex("010400000000").b
+			}
+			ip := nb().u8(0x60, 0, 0, 0).u16(len(chain)+len(after)).u8(first, 64).seq(0x20, 16).seq(0x40, 16).raw(chain).raw(after).b
+			eth := nb().hex("0102030405060a0b0c0d0e0f86dd").raw(ip).b
+			body := nb().u32(0xffffffff).u16(len(eth)).u8(0, 0).q(0).raw(msgMatchBytes(1)).z(2).raw(eth).b
+			c.decCase("parse", "", ofFrame(10, 7, body), 0)
+		}
+	}
+
 	// switch-originated frames, hand-encoded per OpenFlow 1.3
 	c.decFull("parse", "", ofFrame(0, 7, unhex("0001000800000010")))               // hello + version bitmap
 	c.decFew("parse", "", ofFrame(0, 7, nil))                                      // bare hello
